@@ -305,6 +305,12 @@ def check(recipe) -> list[Fail]:
                 elif kind == "zip":
                     got = [(a._conf_id, b._conf_id) for a, b in zip(ens, ens)]
                     ok = got == [(a, a) for a in ids]
+                elif kind == "collect":
+                    # the conformers of a pass are kept (list(ens), sorted(ens, key=...)) and looked at AFTER the pass
+                    cfs = list(ens)
+                    got = [c._conf_id for c in cfs]
+                    ok = len(cfs) == nc and len({id(c) for c in cfs}) == nc and all(
+                        np.array_equal(np.asarray(c.coords, dtype=float), model.coords[i_], equal_nan=True) for i_, c in enumerate(cfs))
                 elif kind == "break_then_full":
                     for c in ens:
                         break
@@ -316,10 +322,17 @@ def check(recipe) -> list[Fail]:
                     return [Fail(f"iteration-wrong:{kind}", f"step {step}: {nc} conformers, visited {str(got)[:200]}")]
                 name = f"iterate[{kind}]"
             elif name == "slice":
-                sl = ens[op[1] % (nc + 1): (op[1] % (nc + 1)) + op[2] % 4]
-                exp = list(range(nc))[op[1] % (nc + 1): (op[1] % (nc + 1)) + op[2] % 4]
-                if [c._conf_id for c in sl] != exp:
-                    return [Fail("slice-wrong", f"step {step}")]
+                if len(op) > 3 and op[3]:
+                    # any slice a list accepts: negative bounds, negative step, open ends
+                    def bnd(v):
+                        return None if v % 7 == 0 else (v % (2 * nc + 3)) - (nc + 1)
+                    sobj = slice(bnd(op[1]), bnd(op[2]), [None, 1, 2, -1, -2][op[3] % 5])
+                else:
+                    sobj = slice(op[1] % (nc + 1), (op[1] % (nc + 1)) + op[2] % 4)
+                sl = ens[sobj]
+                exp = list(range(nc))[sobj]
+                if len(sl) != len(exp) or any(not np.array_equal(np.asarray(c.coords, dtype=float), model.coords[i_], equal_nan=True) for c, i_ in zip(sl, exp)):
+                    return [Fail("slice-wrong", f"step {step}: ens[{sobj.start}:{sobj.stop}:{sobj.step}] of {nc} conformers gave {len(sl)} conformers, rows {exp} expected")]
             elif name == "dump":
                 if nc == 0:
                     continue
@@ -442,8 +455,8 @@ def strat(tier):
         st.tuples(st.sampled_from(["translate1", "translate2"]), st.lists(f, min_size=3, max_size=3)).map(list),
         st.tuples(st.sampled_from(["rotate", "rotate_stack"]), i).map(list),
         st.tuples(st.sampled_from(["write_coord", "write_coords_setter", "write_charge", "write_atom_field", "use_held"]), i, i, f).map(list),
-        st.tuples(st.just("iterate"), st.sampled_from(["plain", "nested", "interleaved", "zip", "break_then_full"])).map(list),
-        st.tuples(st.just("slice"), i, i).map(list),
+        st.tuples(st.just("iterate"), st.sampled_from(["plain", "nested", "interleaved", "zip", "break_then_full", "collect"])).map(list),
+        st.tuples(st.just("slice"), i, i, st.integers(0, 5)).map(list),
         st.tuples(st.just("orphan"), i).map(list),
         st.tuples(st.just("dump"), st.sampled_from(["xyz", "mol2"])).map(list),
         st.tuples(st.just("serialise"), st.sampled_from(["codec", "pickle", "library"]), st.booleans()).map(list),
